@@ -91,6 +91,75 @@ def infomaskEval (args : List String) : String :=
 
 def infomask : Family := { name := "infomask", gen := infomaskGen, eval := infomaskEval, fixed := 256 }
 
+/-! ### ParsePage / ParseHeapTuple called directly -/
+
+def showTuple (t : Model.HeapTuple) : String := showModelEntry ⟨t, 0⟩
+
+/-- args: page bytes (possibly with trailing bytes after the 8 KiB page) -/
+def pagedirectEval (args : List String) : String :=
+  match args with
+  | [pg] => showM (fun ts => joinWith ";" (ts.map showTuple)) (Model.parsePage (unhex pg))
+  | _ => "bad-args"
+
+def pagedirectGen (seed idx size : Nat) : Case :=
+  let (p, extra) := ((do
+      let p ← Gen.genPage size
+      let extra ← if ← Gen.prob 1 4 then Gen.bytes (← Gen.range 1 40) else pure []
+      pure (p, extra)) : Gen _).run' (Prng.ofSeed seed idx)
+  let bytes := Spec.encPage p ++ extra
+  let view := p.normalTuples.map (Spec.tupleView 0)
+  { tags := [if extra.isEmpty then "exact" else "trailing", if view.isEmpty then "empty" else "nt"],
+    model := showM (fun ts => joinWith ";" (ts.map showTuple)) (Model.parsePage bytes),
+    spec := showViews view, args := [hexRle bytes] }
+
+def pagedirect : Family := { name := "pagedirect", gen := pagedirectGen, eval := pagedirectEval }
+
+/-- args: tuple bytes -/
+def tupledirectEval (args : List String) : String :=
+  match args with
+  | [t] => showM (fun r => match r with | some t => showTuple t | none => "nil") (Model.parseHeapTuple (unhex t))
+  | _ => "bad-args"
+
+def tupledirectGen (seed idx size : Nat) : Case :=
+  let t := (Gen.genTuple (24 + 40 * (size + 1))).run' (Prng.ofSeed seed idx)
+  let bytes := Spec.encTuple t
+  { tags := ["nt", if t.hasNull then "bitmap" else "nobitmap", if t.data.isEmpty then "data=0" else "data>0"],
+    model := tupledirectEval [hexRle bytes], spec := showView (Spec.tupleView 0 t), args := [hexRle bytes] }
+
+def tupledirect : Family := { name := "tupledirect", gen := tupledirectGen, eval := tupledirectEval }
+
+/-! ### the concatenation law on the implementation itself, arbitrary (also corrupted) bytes -/
+
+/-- args: visibleOnly, a (page aligned), b.  Output: scan of a ++ b; SPEC: scan a ++ shifted scan b (computed by the model) -/
+def concatEval (args : List String) : String :=
+  match args with
+  | [vis, a, b] => showM showEntries (Model.readTuples (unhex a ++ unhex b) (vis == "1"))
+  | _ => "bad-args"
+
+def concatGen (seed idx size : Nat) : Case :=
+  let (a, b) := ((do
+      let (ba, _) ← Gen.genHeap size
+      let (bb, tb) ← Gen.genHeap size
+      let a := Spec.encHeap ba []
+      let b := Spec.encHeap bb tb
+      -- half of the cases: corrupt one side arbitrarily (the law holds for arbitrary bytes)
+      let a ← if ← Gen.prob 1 4 then
+                  (do let m ← Gen.mutate [(12, 2), (14, 2), (18, 2), (24, 4)] 3 a
+                      pure (m.take (m.length / 8192 * 8192)))
+                else pure a
+      let b ← if ← Gen.prob 1 4 then Gen.mutate [(12, 2), (14, 2), (18, 2), (24, 4)] 3 b else pure b
+      pure (a, b)) : Gen _).run' (Prng.ofSeed seed idx)
+  let vis := idx % 2 == 1
+  let whole := Model.readTuples (a ++ b) vis
+  let parts : M (List Model.TupleEntry) := do
+    let ra ← Model.readTuples a vis
+    let rb ← Model.readTuples b vis
+    pure (ra ++ rb.map fun e => { e with pageOffset := e.pageOffset + a.length })
+  { tags := [s!"apages={a.length / 8192}", match whole with | .ok (_ :: _) => "nt" | _ => "empty"],
+    model := showM showEntries whole, spec := showM showEntries parts, args := [b2s vis, hexRle a, hexRle b] }
+
+def heapconcat : Family := { name := "heapconcat", gen := concatGen, eval := concatEval }
+
 /-! ### malformed heap files (C10): the scan must not panic, whatever the bytes -/
 
 def okOrPanic {α} : M α → String
